@@ -21,12 +21,27 @@ TECHNIQUE = ("Lean 4 theorems about the executable sync model (proxy gating of e
              "of dry_run, comparison by content, pruning copies, selection, commutation of steps with disjoint "
              "footprints) + differential correspondence against the real entry points, dry runs and parallel runs "
              "paired with real / sequential twin runs")
-LEVEL_TEXT = "see Signac/Properties/C15.lean"
-LEVEL_NOTE = ""
+LEVEL_TEXT = ('Proved in Lean (Signac/Properties/C15.lean), same model as C13, for all project pairs / options / entry points: with '
+    'dry_run no mutating step is logged and the destination is unchanged (dry_run_no_step), and the dry run reports exactly the '
+    'outcome (ok or the same exception with the same payload) of the real run from the same state (dry_run_same_outcome); with '
+    'deep two files differ iff their bytes differ (deep_by_content), a reachable non-excluded file with different bytes makes '
+    'sync_jobs raise FileSyncConflict when there is no strategy (deep_conflict_detected) and makes a project sync fail as well '
+    '(deep_at_project_level); a path whose last name is excluded is never created and a file so named never modified, at any '
+    'depth, in existing (exclude_never_touched) and cloned jobs (exclude_never_cloned); jobs outside the selection are never '
+    'created or modified (unselected_never_touched); steps of different jobs have disjoint footprints and commute, so every '
+    "schedule that keeps each job's steps in order gives the same job directories (parallel_eq_sequential, per_job_footprint). "
+    'Compared with the real entry points; every dry run / parallel run is paired with a real / sequential twin run.')
+LEVEL_NOTE = ('The model is the code WITH the fixes F-15a-g (proposed/*.md): the unchanged tree violates every part of C15 except '
+    'selection; those cases are found by the oracle, listed as known findings and carved out of the correspondence. '
+    'dry_run_same_outcome assumes distinct names per directory listing, distinct keys in source job documents and that the '
+    'implicit exclude patterns match the names they are made from. The parallel theorem is about schedules of atomic steps; real '
+    'ThreadPool interleavings are only sampled (parallel in {2, True} vs a sequential twin), and on a failing parallel run only '
+    'the exception kind is compared. Dry-run oracle: bytes + structure of both trees, mtimes of all non-document files. '
+    'Trusted base as in C13.')
 
 
 def generate(tier, rng):
-    n = 4000 if tier == "quick" else 40000
+    n = 4000 if tier == "quick" else 60000
     for _ in range(n):
         yield sc.gen_case(rng, "c15")
 
